@@ -9,7 +9,16 @@ src=$1; pid=$2; tier=${3:-quick}
 patch=$(readlink -f "$patch")
 wt=/tmp/seedwt_$$; vc=/tmp/seedverif_$$
 git -C /repo worktree add -q "$wt" HEAD || exit 2
-( cd "$wt" && git apply "$patch" ) || { echo "patch does not apply"; git -C /repo worktree remove --force "$wt"; exit 2; }
+if ! ( cd "$wt" && git apply "$patch" ) 2>/dev/null; then
+  # the change was written against an earlier /repo HEAD (a later fix: commit touched the same lines): fall back
+  # to the commit recorded in meta.json
+  base=$(python3 -c "import json,sys; print(json.load(open(sys.argv[1])).get('repo_head',''))" "$(dirname "$patch")/meta.json" 2>/dev/null)
+  git -C /repo worktree remove --force "$wt"
+  [ -n "$base" ] || { echo "patch does not apply"; exit 2; }
+  git -C /repo worktree add -q "$wt" "$base" || exit 2
+  ( cd "$wt" && git apply "$patch" ) || { echo "patch does not apply"; git -C /repo worktree remove --force "$wt"; exit 2; }
+  echo "NOTE: applied on top of $base (does not apply to the current /repo HEAD)"
+fi
 mkdir -p "$vc" && rsync -a --delete --exclude .git --exclude _work/replay --exclude _work/files /verif/ "$vc"/
 # the copy must start from the committed (unchanged-tree) traces
 for f in $(git -C /verif ls-files coq/Gen); do git -C /verif show HEAD:$f > "$vc/$f"; done
